@@ -81,12 +81,8 @@ func init() {
 			if !(strings.HasPrefix(pr, "db/pebble") || pr == "db/memory") || fn.Name() != "NewIterator" || fn.Signature.Recv() == nil {
 				continue
 			}
-			var ub []Site
-			for _, s := range sitesOf(fn) {
-				if strings.HasSuffix(s.CalleeName(), "dbutils.UpperBound") {
-					ub = append(ub, s)
-				}
-			}
+			// the bound may be computed here or in a same-package options helper
+			ub := p.deepSites(fn, func(s Site) bool { return strings.HasSuffix(s.CalleeName(), "dbutils.UpperBound") }, 2)
 			if len(ub) == 0 {
 				// delegating implementations (memory batch builds a temp DB and delegates)
 				deleg := false
@@ -101,13 +97,27 @@ func init() {
 				c.check(deleg, "upper-bound", qname(fn), p.Pos(fnPos(fn)), "delegates with withUpperBound passed through", "NewIterator neither applies dbutils.UpperBound nor delegates the withUpperBound flag")
 				continue
 			}
-			for _, s := range ub {
+			for _, ds := range ub {
+				s := ds.Site
 				nu++
-				d := p.mustHoldAt(s.Instr)
+				d := p.mustHoldDeep(ds)
 				ok, miss := everyDisjunctHas(d, []string{"withUpperBound"})
 				argOK := false
 				if len(s.Args()) > 0 {
-					if _, isParam := s.Args()[0].(*ssa.Parameter); isParam {
+					// the argument is the prefix parameter of NewIterator (passed down the helper chain unchanged)
+					v := s.Args()[0]
+					for i := len(ds.Chain) - 1; i >= 0 && v != nil; i-- {
+						prm, isParam := v.(*ssa.Parameter)
+						v = nil
+						if isParam {
+							for k, q := range prm.Parent().Params {
+								if q == prm && k < len(ds.Chain[i].Args()) {
+									v = ds.Chain[i].Args()[k]
+								}
+							}
+						}
+					}
+					if prm, isParam := v.(*ssa.Parameter); isParam && prm.Parent() == fn {
 						argOK = true
 					}
 				}
